@@ -34,6 +34,7 @@ type gkrTopo struct {
 	NIn    int     `json:"nin"`
 	Ops    []gkrOp `json:"ops"`
 	Series bool    `json:"series"` // input 0 of instance i>0 is output 0 of instance i-1
+	Deps   [][2]int `json:"deps,omitempty"` // explicit dependencies (input instance, output instance) of input 0 on sink 0
 }
 
 func (t *gkrTopo) String() string {
@@ -109,11 +110,35 @@ func evalGate(g string, in []*big.Int) *big.Int {
 func (t *gkrTopo) eval(inputs [][]*big.Int) [][]*big.Int {
 	n := len(inputs)
 	vals := make([][]*big.Int, n)
-	for i := 0; i < n; i++ {
+	order := make([]int, 0, n)
+	done := make([]bool, n)
+	for len(order) < n {
+		for i := 0; i < n; i++ {
+			if done[i] {
+				continue
+			}
+			ready := true
+			for _, d := range t.Deps {
+				if d[0] == i && !done[d[1]] {
+					ready = false
+				}
+			}
+			if ready {
+				done[i] = true
+				order = append(order, i)
+			}
+		}
+	}
+	for _, i := range order {
 		v := make([]*big.Int, t.NIn+len(t.Ops))
 		copy(v, inputs[i])
 		if t.Series && i > 0 {
 			v[0] = vals[i-1][t.sinks()[0]]
+		}
+		for _, d := range t.Deps {
+			if d[0] == i {
+				v[0] = vals[d[1]][t.sinks()[0]]
+			}
 		}
 		for k, o := range t.Ops {
 			in := make([]*big.Int, len(o.In))
@@ -159,6 +184,11 @@ func (c *gkrCircuit) Define(api frontend.API) error {
 				asg[k] = nil
 			}
 		}
+		if i == 0 {
+			for _, d := range t.Deps {
+				asg[d[0]] = nil
+			}
+		}
 		v, err := g.Import(asg)
 		if err != nil {
 			return err
@@ -177,6 +207,9 @@ func (c *gkrCircuit) Define(api frontend.API) error {
 		for k := 1; k < c.ninst; k++ {
 			g.Series(vars[0], vars[sinks[0]], k, k-1)
 		}
+	}
+	for _, d := range t.Deps {
+		g.Series(vars[0], vars[sinks[0]], d[0], d[1])
 	}
 	sol, err := g.Solve(api)
 	if err != nil {
@@ -197,6 +230,11 @@ func (c *gkrCircuit) Define(api frontend.API) error {
 		}
 		if t.Series && k > 0 {
 			v[0] = exported[0][k-1]
+		}
+		for _, d := range t.Deps {
+			if d[0] == k {
+				v[0] = exported[0][d[1]]
+			}
 		}
 		for oi, o := range t.Ops {
 			var r frontend.Variable
@@ -386,6 +424,21 @@ func runC19(args []string) int {
 				jobs = append(jobs, &job{t: t, n: n, mode: m, in: in})
 			}
 			jobs = append(jobs, &job{t: t, n: n, mode: "engine", in: in, wrong: true}, &job{t: t, n: n, mode: "r1cs", in: in, wrong: true})
+		}
+	}
+	// crossing / non-monotone series dependencies between instances (4 instances)
+	for di, deps := range [][][2]int{{{2, 1}, {3, 0}}, {{0, 2}, {2, 1}}, {{1, 3}, {0, 1}}} {
+		t := &gkrTopo{NIn: 2, Ops: []gkrOp{{"mul2", []int{0, 1}}}, Deps: deps}
+		if di == 2 {
+			t.Ops = []gkrOp{{"add2", []int{0, 1}}, {c19Gate, []int{2, 0}}}
+		}
+		topos = append(topos, t)
+		in := make([][]*big.Int, 4)
+		for k := range in {
+			in[k] = []*big.Int{big.NewInt(int64(2 + k)), big.NewInt(int64(11 + 3*k))}
+		}
+		for _, m := range []string{"engine", "r1cs"} {
+			jobs = append(jobs, &job{t: t, n: 4, mode: m, in: in})
 		}
 	}
 	// the GKR prover keeps its solving data in package-level state keyed by the modulus in the test engine: run the
